@@ -169,6 +169,12 @@ const UNRELATED: &[&str] = &[
     "u4 = nope_undefined + 1",
     "u5 = {a: [1, 2, {b: \"deep\"}], f: x => x}",
     "u6 = random(7)",
+    // aggregates that fail after some numeric operands (state kept across calls would leak them)
+    "u7 = sum([1, 2, \"x\"])",
+    "u8 = max(5, null)",
+    "u9 = [avg([1, \"a\"]), 1]",
+    "u10 = median([3, 4, [1]]) + prod(2, 3, \"y\") + min(7, {})",
+    "u11 = sort([3, 1, \"z\", 2]) + unique([1, 1, nope_undefined])",
 ];
 
 impl Check for Deterministic {
